@@ -201,6 +201,14 @@ func c02RRNames(r *fw.R, rr dns.RR, tag string, in []byte) {
 	if _, ok := rr.(*dns.RFC3597); ok {
 		return
 	}
+	if o, ok := rr.(*dns.OPT); ok {
+		// names inside options (RFC 9567 Report-Channel agent domain)
+		for _, e := range o.Option {
+			if rp, ok := e.(*dns.EDNS0_REPORTING); ok {
+				c02Name(r, rp.AgentDomain, "OPT option 18 agent domain", tag, in)
+			}
+		}
+	}
 	defer func() { recover() }() // a field name mismatch is C01's business
 	for _, n := range bind.NameStrings(rr, s) {
 		c02Name(r, n, s.Mnem+" rdata", tag, in)
@@ -286,7 +294,7 @@ func c02Spaces(c *fw.Ctx) {
 			}
 		})
 
-	c.Space("short/with-header", "UnpackRRWithHeader: every registered type (+ one unassigned) × Rdlength 0..12 × buffers of Rdlength..Rdlength+6 octets over fills {00, 01, 3f, c0, ff} × offset {0, 1} (the header is the caller's, the buffer may continue behind the RDATA): no panic, and what is accepted can be printed, measured, copied and packed; non-trivial: accepted", true,
+	c.Space("short/with-header", "UnpackRRWithHeader: every registered type (+ one unassigned) × Rdlength 0..12 × buffers of Rdlength..Rdlength+6 octets over fills {00, 01, 3f, c0, ff} × offset {0, 1} (the header is the caller's, the buffer may continue behind the RDATA), and offsets behind the end of the buffer with Rdlength 0..2 (an error): no panic, what is accepted lies inside the input, and what is accepted can be printed, measured, copied and packed; non-trivial: accepted", true,
 		func(emit func(func(*fw.R))) {
 			ts := append(append([]uint16(nil), types...), 65280)
 			for _, t := range ts {
@@ -304,9 +312,12 @@ func c02Spaces(c *fw.Ctx) {
 												r.Fail("panic/with-header", "UnpackRRWithHeader(type %d, Rdlength %d, %d octets of %#x, off %d) panicked: %v", t, rdl, len(msg), fill, off, p)
 											}
 										}()
-										rr, _, err := dns.UnpackRRWithHeader(h, msg, off)
+										rr, noff, err := dns.UnpackRRWithHeader(h, msg, off)
 										if err != nil || rr == nil {
 											return
+										}
+										if noff < off || noff > len(msg) {
+											r.Fail("outside-input/with-header", "UnpackRRWithHeader(type %d, Rdlength %d, %d octets, off %d) accepted and returned the offset %d: the record does not lie inside the input", t, rdl, len(msg), off, noff)
 										}
 										r.Nontrivial()
 										_ = rr.String()
@@ -319,11 +330,32 @@ func c02Spaces(c *fw.Ctx) {
 							}
 						}
 					}
+					// offsets outside the buffer (the header is the caller's: nothing ties it to the buffer): an error, whatever
+					// the RDLENGTH says — with RDLENGTH 0 there is no RDATA to read, but the record still has to lie inside the input
+					for rdl := 0; rdl <= 2; rdl++ {
+						for _, n := range []int{0, 1, 5} {
+							for _, off := range []int{n + 1, n + 2, n + 100, 1 << 20} {
+								msg := bytes.Repeat([]byte{0}, n)
+								h := dns.RR_Header{Name: ".", Rrtype: t, Class: 1, Ttl: 5, Rdlength: uint16(rdl)}
+								func() {
+									defer func() {
+										if p := recover(); p != nil {
+											r.Fail("panic/with-header", "UnpackRRWithHeader(type %d, Rdlength %d, %d octets, off %d) panicked: %v", t, rdl, n, off, p)
+										}
+									}()
+									rr, noff, err := dns.UnpackRRWithHeader(h, msg, off)
+									if err == nil {
+										r.Fail("outside-input/with-header", "UnpackRRWithHeader(type %d, Rdlength %d, %d octets, off %d) = %v, offset %d, no error: the offset lies behind the input", t, rdl, n, off, rr, noff)
+									}
+								}()
+							}
+						}
+					}
 				})
 			}
 		})
 
-	c.Space("short/options", "every EDNS0 option code the library knows (+2 unknown) and every SVCB key (+2 unknown) × all payloads of length ≤ 2, every length 3..300 and lengths 511..513, 1023..1025, 4096 of boundary fill, and structured payloads (4 leading octets {0,1,2,0x18}×{0,1,2,0x18,0x20,0x21,0x7f,0x80,0xff}³ + a tail of 0..17 octets of 0x00 / 0xff), inside a well-formed OPT / SVCB record in a message; non-trivial: accepted", true,
+	c.Space("short/options", "every EDNS0 option code the library knows (+2 unknown) and every SVCB key (+2 unknown) × all payloads of length ≤ 2, every length 3..300 and lengths 511..513, 1023..1025, 4096 of boundary fill, and structured payloads (4 leading octets {0,1,2,0x18}×{0,1,2,0x18,0x20,0x21,0x7f,0x80,0xff}³ + a tail of 0..17 octets of 0x00 / 0xff), payloads that are wire names of 250..258 octets (whole, cut, ending in a pointer), inside a well-formed OPT / SVCB record in a message; non-trivial: accepted", true,
 		func(emit func(func(*fw.R))) {
 			codes := []uint16{1, 2, 3, 4, 5, 6, 7, 8, 9, 10, 11, 12, 15, 18, 19, 20, 65001}
 			keys := []uint16{0, 1, 2, 3, 4, 5, 6, 7, 8, 9, 65280, 65535}
@@ -408,6 +440,28 @@ func c02Spaces(c *fw.Ctx) {
 							}
 							if a == -1 {
 								try(nil)
+								// payloads that are wire-format names around the 255-octet limit (options and keys that carry a name:
+								// the Report-Channel agent domain; for the others this is opaque data), also cut short by one octet
+								// and ending in a compression pointer instead of the root
+								for total := 250; total <= 258; total++ {
+									var nm []byte
+									left := total - 1
+									for left > 0 {
+										n := left - 1
+										if n > 63 {
+											n = 63
+										}
+										if left-1-n == 1 {
+											n--
+										}
+										nm = append(nm, byte(n))
+										nm = append(nm, bytes.Repeat([]byte{'a'}, n)...)
+										left -= 1 + n
+									}
+									try(append(append([]byte(nil), nm...), 0))
+									try(nm)
+									try(append(append([]byte(nil), nm...), 0xc0, 0x0c))
+								}
 								for n := 3; n <= 20; n++ {
 									for _, fill := range []byte{0, 1, 0x7f, 0x80, 0xff} {
 										try(bytes.Repeat([]byte{fill}, n))
